@@ -1082,7 +1082,7 @@ impl Renderer for PosixRenderer {
         let mut esc_seq = 0;
         for c in s.graphemes(true) {
             if c == "\n" {
-                pos.row += 1;
+                pos.row = pos.row.saturating_add(1);
                 pos.col = 0;
                 continue;
             }
@@ -1093,13 +1093,13 @@ impl Renderer for PosixRenderer {
             };
             pos.col += cw;
             if pos.col > self.cols {
-                pos.row += 1;
+                pos.row = pos.row.saturating_add(1);
                 pos.col = cw;
             }
         }
         if pos.col == self.cols {
             pos.col = 0;
-            pos.row += 1;
+            pos.row = pos.row.saturating_add(1);
         }
         pos
     }
